@@ -59,7 +59,8 @@ def gen_lo():
     open('E2ELoLoop.lean', 'w').write('import GM.Proof.InlinesTotal\n\n' + body)
     # HAND EDITS: cut the tail from `def Ctx.pos` on and re-append `blockFuel_gt`; `(hlo : 0 ≤ lo0)` added to
     # `eolText_total`, `endOfLine_total`, `lineLoop_total` (and passed on); in `eolText_total`
-    # `have h0 : 0 ≤ diff.start := by have := chain_le hc; omega`.
+    # `have h0 : 0 ≤ diff.start := by have := chain_le hc; omega`; in `lineLoop_total` `ih _ st2 …` instead of `ih s'.escaped st2 …`
+    # (compiles against the model before AND after escfix's `escaped := false` repair).
 
     s = open('InlinesLink.lean').read()
     body = s[s.index('namespace GM.Proof.InlinesLink'):]
